@@ -349,6 +349,37 @@ def _error_records(ck, repo):
     rp = ae.positional_params[1]
     ok = len(src) == 1 and ifexp_parts(src[0].value) == (f"isinstance({rp}, MultipleException)", f"{rp}.exceptions", f"[{rp}]")
     ck.ob("add_error unpacks a MultipleException into its members", ok, ae, src[0] if src else ae.node, construct="add_error:unpack")
+    st = [n for n in walk_no_nested(ae.node) if isinstance(n, ast.Assign) and isinstance(n.value, ast.IfExp) and ap and unparse(n.targets[0]) == unparse(ap[0].args[0])]
+    x = unparse(lp2.target) if lp2 is not None else "?"
+    ok = len(st) == 1 and ifexp_parts(st[0].value)[:2] == (f"is_coercible_exception({x})", x) and ifexp_parts(st[0].value)[2].startswith(f"TartifletteError(str({x}), ")
+    ck.ob("add_error records a coercible exception as it is and wraps any other one", ok, ae, st[0] if st else ae.node, construct="add_error:wrap")
+    # located_error: one located error per member, operands normalised, optional attributes read under their guards
+    src = [n for n in walk_no_nested(le.node) if isinstance(n, ast.Assign) and isinstance(n.value, ast.IfExp) and unparse(n.targets[0]) == "exceptions"]
+    ok = len(src) == 1 and ifexp_parts(src[0].value) == (f"isinstance({lp[0]}, MultipleException)", f"{lp[0]}.exceptions", f"[{lp[0]}]")
+    llp = [l for l in lv.loops() if isinstance(l, ast.For) and unparse(l.iter) == "exceptions"]
+    ok = ok and len(llp) == 1 and ap and contains(llp[0], lv.calls("append")[0]) and not any(isinstance(n, (ast.Break, ast.Continue, ast.Return)) for n in walk_no_nested(llp[0]))
+    ck.ob("located_error locates every member of a MultipleException (else the exception itself), one entry each", ok, le, src[0] if src else le.node, construct="located:members")
+    for fn_, view in ((le, lv), (gn, gv)):
+        nm = fn_.positional_params[1]
+        wraps = [n for n in walk_no_nested(fn_.node) if isinstance(n, ast.Assign) and unparse(n.targets[0]) == nm and unparse(n.value) == f"[{nm}]"]
+        ok = len(wraps) == 1 and set(view.conditions(wraps[0])) == {(f"isinstance({nm}, list)", "F")}
+        ck.ob(f"{fn_.name}: a single node is wrapped into a list exactly when it is not one already", ok, fn_, wraps[0] if wraps else fn_.node, construct=f"{fn_.name}:nodes-normalised")
+    nn = [n for n in walk_no_nested(le.node) if isinstance(n, ast.Assign) and unparse(n.targets[0]) == lp[1] and unparse(n.value) == "[]"]
+    ck.ob("located_error: missing nodes become the empty list", len(nn) == 1 and set(lv.conditions(nn[0])) == {(f"{lp[1]} is None", "T")}, le, nn[0] if nn else le.node,
+          construct="located:nodes-none")
+    pc = [n for n in walk_no_nested(gn.node) if isinstance(n, ast.Assign) and unparse(n.targets[0]) == gp[2] and unparse(n.value) == f"{gp[2]}.as_list()"]
+    ck.ob("graphql_error_from_nodes converts a Path (and only a Path) into the list of keys", len(pc) == 1 and set(gv.conditions(pc[0])) == {(f"isinstance({gp[2]}, Path)", "T")}, gn,
+          pc[0] if pc else gn.node, construct="from-nodes:path-list")
+    for attr in ("path", "locations"):
+        loads = [n for n in ast.walk(le.node) if isinstance(n, ast.Attribute) and n.attr == attr and unparse(n.value) == "graphql_error" and isinstance(n.ctx, ast.Load)]
+        ok = bool(loads) and all((f"hasattr(graphql_error, '{attr}')", "T") in lv.conditions(n) for n in loads)
+        ck.ob(f"located_error reads `graphql_error.{attr}` only after hasattr said it exists (user exceptions need only coerce_value)", ok, le, loads[0] if loads else le.node,
+              construct=f"located:guarded-read:{attr}")
+    kwl = [n for n in ast.walk(le.node) if isinstance(n, ast.Attribute) and n.attr == "keywords" and isinstance(n.ctx, ast.Load)]
+    ok = bool(kwl) and all(("is_partial", "T") in lv.conditions(n) for n in kwl)
+    ck.ob("located_error reads `.keywords` only of a partial", ok, le, kwl[0] if kwl else le.node, construct="located:guarded-read:keywords")
+    from .c18 import error_record_shape
+    error_record_shape(ck, repo)
 
 
 def _attach_table(ck, le, lv, parts):
